@@ -53,6 +53,18 @@ def _judge_membership(ctx, fn, comp):
         narrowed = any(s_[0] == 'slice' or (s_[0] == 'call' and s_[1] in (('ext', 'itertools.islice'),)) for s_ in T.subterms(it)) or \
             (fmt(it) == 'self.asset_dates.items()' and len(tg) == 2 and comp[2] != tg[0])
         if not iter_ok and not narrowed:
+            # membership by position in a sorted list of entry instants: bisect_left(L, dt) (searchsorted, side='left') counts the entries strictly BEFORE dt, so whatever
+            # is selected by `rank < count` leaves out an entry that falls exactly on dt - the boundary the property makes inclusive.  (bisect_right counts <= dt.)
+            excl = [s_ for c_ in ifs for s_ in T.subterms(c_) if s_[0] == 'call' and s_[1][0] == 'ext' and s_[1][1].split('.')[-1] in ('bisect_left',) and len(s_[2]) == 2
+                    and s_[2][1] == V('dt')]
+            excl += [s_ for c_ in ifs for s_ in T.subterms(c_) if s_[0] == 'call' and s_[1] == ('meth', 'searchsorted') and len(s_[2]) == 2 and s_[2][1] == V('dt')
+                     and dict(s_[3]).get('side', ('str', 'left')) == ('str', 'left')]
+            strict = [c_ for c_ in ifs if c_[0] == 'cmp' and c_[1] == '<' and c_[3] in excl]
+            if strict:
+                ctx.violation('C19.S1', 'an asset is a member from its entry instant on (dt >= entry date, inclusive)', fn.site(),
+                              'READ!: membership is `%s`: %s counts the entries strictly before dt, so an asset entering exactly at dt is not yet a member'
+                              % (fmt(strict[0])[:100], fmt(strict[0][3])[:60]), key='C19.S1|boundary')
+                return False
             ctx.undecided('C19.S1', 'every configured asset is considered and the asset itself is returned', fn.site(), 'unrecognised construction: %s' % fmt(comp)[:160])
             return False
         ctx.require(iter_ok, 'C19.S1', 'every configured asset is considered and the asset itself is returned',
